@@ -178,8 +178,13 @@ def main(argv=None):
               f'outcomes={len(total.outcomes)} dontcare={sum(total.dontcare.values())} '
               f'wall={wall:.1f}s evidence={evp}')
         for kf in known_lines.values():
-            print(f'KNOWN-FINDING: property={pid} {kf["id"]}: {kf["witness"]}')
+            print(f'KNOWN-FINDING: property={pid} {kf["id"]}: {kf.get("summary") or kf["witness"]}')
         rc = 0
+        if os.environ.get('VERIF_SUMMARY'):
+            import collections
+            c = collections.Counter(json.dumps(v['sig'], sort_keys=True) for v in total.violations)
+            for k, n in sorted(c.items()):
+                print(f'  SIG x{n}: {k}')
         for n, v in enumerate(new_violations):
             p = ev.write_replay(pid, n, v)
             print(f'  {v["message"]}')
